@@ -405,6 +405,8 @@ def emit_function(root, c, mode, extra_fmt_fns):
         try:
             sig, body = getattr(R, 'rule_' + rule)(ctx, sig, body, arg)
         except R.RuleError as e:
+            if mode == 'assume' and rule not in ('callback',):
+                continue    # the body of an assumed function is not emitted: a body-only rule that no longer applies is irrelevant
             raise ExtractError(f'contract {c.name}: rule {rule} not applicable: {e}')
     sig = rewrite_signature(sig, c.ret, c.name)
     name = fn.name
